@@ -175,7 +175,8 @@ func (publisher *Publisher) sendSourceFiles(files chan *core.File) {
 			page := NewSourcePage(publisher.doc, source,
 				publisher.GoogleAnalyticsID, publisher.options,
 				publisher.indexLetters, publisher.placesMap)
-			files <- core.NewFile(PageSource(source), page)
+			files <- core.NewFile(PageSource(publisher.doc, source,
+				publisher.placesMap), page)
 		}
 	}
 }
